@@ -102,7 +102,8 @@ example : getNode (.comp {} .dict c04Pcs) [.str "p"] = some (.leaf { prio := som
    `self`, if no node strictly below `self` outranks its deepest existing counterpart in `other`
    (`maybe_keep` fails everywhere) and nothing below `other` is `!notnew`, the merge takes the
    early exit: `other` (flags: `_replace_other` with `self`'s) is promoted against the EMPTIED
-   `self`, and the result is not the `self` object.  `rec` (the recursive merge) is never called. -/
+   `self`, its inherited flags are handed down to its children again (`propagate`), and the result
+   is not the `self` object.  `rec` (the recursive merge) is never called. -/
 theorem C04_del_exact (rec : Node → Node → Except Err (Node × Bool)) (sf of : Flags)
     (sk ok : CompKind) (scs ocs : List (Key × Node))
     (hwf : wfKeys (.comp sf sk scs) = true)
@@ -113,7 +114,7 @@ theorem C04_del_exact (rec : Node → Node → Except Err (Node × Bool)) (sf of
     compMerge rec sf sk scs (.comp of ok ocs) =
       match maybePromote (replaceOtherFlags of sf) ok ocs (.comp sf sk []) with
       | .error e => .error e
-      | .ok (res, same) => .ok (res, !same) := by
+      | .ok (res, same) => .ok (propagate res, !same) := by
   rw [c04_compMerge_del_emptied rec hdel hprio (c04_filterNode_noneKept_comp _ [] hwf hnone),
     c04_reqNew_root_excepted _ hnew]
   rfl
@@ -124,7 +125,8 @@ example : wfKeys (.comp {} .dict c04Scs) = true ∧ eDel c04O = true ∧
 
 /- "… the merged content at that path is exactly the newer node's content" for a plain mapping or
    list `self` (and in general whenever the two classes coincide): the result IS `other` with the
-   flags `_replace_other` — same class, same children, hence the same data. -/
+   flags `_replace_other` and its inherited flags re-propagated into its children — same class,
+   same children up to those inherited flags, hence the same data. -/
 theorem C04_del_exact_plain (rec : Node → Node → Except Err (Node × Bool)) (sf of : Flags)
     (sk ok : CompKind) (scs ocs : List (Key × Node))
     (hsk : sk = .dict ∨ sk = .list ∨ ok.sameClass sk = true)
@@ -133,9 +135,10 @@ theorem C04_del_exact_plain (rec : Node → Node → Except Err (Node × Bool)) 
     (hprio : hasPrio of sf true = true)
     (hnone : noneKeptList (maybeKeep (.comp of ok ocs)) [] scs = true)
     (hnew : reqNewList [] [] ocs = none) :
-    compMerge rec sf sk scs (.comp of ok ocs) = .ok (.comp (replaceOtherFlags of sf) ok ocs, false) ∧
-      native (.comp (replaceOtherFlags of sf) ok ocs) = native (.comp of ok ocs) := by
-  refine ⟨?_, native_comp_flags _ _ _ _⟩
+    compMerge rec sf sk scs (.comp of ok ocs) =
+        .ok (propagate (.comp (replaceOtherFlags of sf) ok ocs), false) ∧
+      native (propagate (.comp (replaceOtherFlags of sf) ok ocs)) = native (.comp of ok ocs) := by
+  refine ⟨?_, by rw [nativeOf_propagate]; exact native_comp_flags _ _ _ _⟩
   rw [C04_del_exact rec sf of sk ok scs ocs hwf hdel hprio hnone hnew]
   rcases hsk with h | h | h
   · rw [c04_maybePromote_emptied_plain _ _ _ _ _ (.inl h)]; rfl
@@ -158,18 +161,19 @@ theorem C04_del_exact_prio (fuel : Nat) (b : Int) (sf of : Flags) (sk ok : CompK
     (hle : prioLe b (.comp sf sk scs) = true) (hge : prioGe b (.comp of ok ocs) = true)
     (hnew : reqNewList [] [] ocs = none) :
     mergeF (fuel + 1) (.comp sf sk scs) (.comp of ok ocs) =
-        .ok (.comp (replaceOtherFlags of sf) ok ocs, false) ∧
-      merge (.comp sf sk scs) (.comp of ok ocs) = .ok (.comp (replaceOtherFlags of sf) ok ocs) := by
+        .ok (propagate (.comp (replaceOtherFlags of sf) ok ocs), false) ∧
+      merge (.comp sf sk scs) (.comp of ok ocs) =
+        .ok (propagate (.comp (replaceOtherFlags of sf) ok ocs)) := by
   have hle' : ePrio sf ≤ b ∧ prioLeList b scs = true := by simpa [prioLe] using hle
   have hge' : b ≤ ePrio of ∧ prioGeList b ocs = true := by simpa [prioGe] using hge
   have hprio : hasPrio of sf true = true := c04_hasPrio_true_of_ge (by omega)
   have hnone := c04_noneKeptList_of_prio hge [] scs hle'.2
   have main : ∀ rec, compMerge rec sf sk scs (.comp of ok ocs) =
-      .ok (.comp (replaceOtherFlags of sf) ok ocs, false) := fun rec =>
+      .ok (propagate (.comp (replaceOtherFlags of sf) ok ocs), false) := fun rec =>
     (C04_del_exact_plain rec sf of sk ok scs ocs
       (hsk.elim .inl (fun h => .inr (.inl h))) hwf hdel hprio hnone hnew).1
   have hm : ∀ n, mergeF (n + 1) (.comp sf sk scs) (.comp of ok ocs) =
-      .ok (.comp (replaceOtherFlags of sf) ok ocs, false) := by
+      .ok (propagate (.comp (replaceOtherFlags of sf) ok ocs), false) := by
     intro n
     rcases hsk with h | h
     · subst h; exact main _
@@ -439,7 +443,7 @@ theorem C04_del_null_removes_key (fuel : Nat) (sf : Flags) (sk : CompKind) (acc 
   constructor
   · apply c04_mergeStep_leaf_removed (mergeF (fuel + 1)) sf sk acc k (.leaf vf vk) (.leaf cf ck)
       (.leaf (replaceOtherFlags vf cf) vk) hget rfl
-    · simp [mergeF, leafRule, Node.flags, hwins, Node.setFlags]
+    · simp [mergeF, leafRule, Node.flags, hwins, Node.setFlags, propagate]
     · rfl
     · simpa [Node.truthy] using hfalsy
     · simpa [Node.flags, replaceOtherFlags, mergeSafe] using hdel
@@ -473,8 +477,10 @@ theorem C04_del_empty_container_removes_key (fuel : Nat) (sf : Flags) (sk : Comp
     (c04_prioGe_empty vf vk) rfl).1
   apply c04_mergeStep_comp_removed (mergeF (fuel + 2)) sf sk acc k (.comp vf vk []) (.comp cf ck ccs)
     (.comp (replaceOtherFlags vf cf) vk []) false hget rfl
-  · exact C04_del_exact_prio (fuel + 1) (ePrio vf) cf vf ck vk ccs [] hck hwf hd hle
-      (c04_prioGe_empty vf vk) rfl |>.1
+  · have := (C04_del_exact_prio (fuel + 1) (ePrio vf) cf vf ck vk ccs [] hck hwf hd hle
+      (c04_prioGe_empty vf vk) rfl).1
+    rw [c04_propagate_empty] at this
+    exact this
   · cases vk <;> simp_all [Node.truthy, CompKind.isFunc, CompKind.func?]
   · exact c04_hasPrio_false_of_le (by simp [Node.flags, ePrio, replaceOtherFlags, mergeSafe])
   · exact hdel
